@@ -29,7 +29,7 @@ claims = {
    text="Table obligations over the REAL symbol table (getSymbol's composite literal evaluated by the engine for every token): binary operators fall into Go's five levels in Go's order, every level is left-associative (led recursion binds with its own lbp), unary nud binding power exceeds every binary lbp and is below every postfix lbp; contracts on ledInfix / negateNud / complementNud / notNud / doExpression tie the table to the Pratt loop (the loop continues exactly while the next token's lbp exceeds the caller's rbp). Not covered: that evaluation of the resulting tree computes Go's value (C04/C07 slices).",
    technique=TECH),
  'C06': dict(level='proof', design='5.6',
-   text="Case contracts on the control-flow cases of (*compiler).compile (if, &&, for, range, switch, return, lambda) proved from the real case bodies: jump spans are computed from the lengths of the emitted blocks, placeholder BREAK/CONTINUE are rewritten to jumps only inside the loop/switch block being closed, nested blocks already closed are left alone; VM-side JUMP/JUMPFALSE/JUMPTRUE/RETURN cases are in the C07 ISA contracts. Layout clauses for if-else placement and the tail-call return form were intractable for the solvers (60-180 KB queries) and are NOT claimed; see DESIGN.md 9.",
+   text="Case contracts on the control-flow cases of (*compiler).compile (if, &&, for, range, switch, return, lambda) proved from the real case bodies: jump spans are computed from the lengths of the emitted blocks, placeholder BREAK/CONTINUE are rewritten to jumps only inside the loop/switch block being closed, nested blocks already closed are left alone; VM-side JUMP/JUMPFALSE/JUMPTRUE/RETURN cases are in the C07 ISA contracts. The function-level contracts of compile/compileAll are trusted (recursion through the contract being proved, tree shape assumed); see DESIGN.md 11.2.",
    technique=TECH),
  'C08': dict(level='proof', design='5.8',
    text="Contracts on the scope machinery (lookup.Read/Write/Assign/Index/Shadow/Drop/shadow/unshadow; compiler Begin/Shadow/End) against a ghost chain-of-bindings view: a declaration inside a block shadows, End restores exactly the outer binding (including a binding that was itself shadowing), slots are never shared between live names. Compile cases that open blocks (if, for, range, switch, lambda) are proved to pair Begin/End on every exit path.",
@@ -50,7 +50,7 @@ claims = {
    text="Termination and shape of rendering: every container SafeStr has a call-site obligation that it recurses only into elements whose type is itself not a container (so recursion depth is bounded by 2 and rendering terminates on self-containing values), vaSprint joins operands with exactly one space, Value.String cases delegate to fmt for scalars. Full-depth rendering of nested containers fails (known finding D18).",
    technique=TECH),
  'C15': dict(level='proof', design='5.15',
-   text="Contracts on the loader (loadPackage, loadFile, rawLoadPackage, rawLoadFile, loadImports and its loops, checkConstraint) with a ghost 'loaded' set: a package is initialised at most once, imports before importer, _test.go and constraint-excluded files skipped, a cycle yields an error instead of silently dropping a package (D8 repaired). File-system functions are extern contracts (assumed).",
+   text="Contracts on the loader (loadPackage, loadFile, rawLoadPackage, rawLoadFile, loadImports and its loops, checkConstraint) with a ghost 'loaded' set: a package is initialised at most once, imports before importer, _test.go and constraint-excluded files skipped, a cycle yields an error instead of silently dropping a package (D8 repaired); compilePkgs hands every package's compiler the same local-slot table. File-system functions are extern contracts (assumed).",
    technique=TECH),
  'C16': dict(level='proof', design='5.16',
    text="Table obligations extracted from the REAL priority map literal and sort call of treeSort (stable sort; type > method/function > 0; imports first; init last; every statement kind in the stable default class), plus call-site obligations that every tree handed to loadImports (from loadPackage, loadFile and for every dependency) has been through treeSort (ghost predicate hoisted), and symAtPos's contract. The sort.SliceStable library call itself and joinFiles are trusted (listed as assumptions); the behavioural consequence (all permutations run identically) rests on them and on C07/C08.",
@@ -59,10 +59,10 @@ claims = {
    text="Heap contracts for GLOBALFUNC (in-place copy into the existing funcT, every other function object untouched), GLOBALZERO (writes only when the variable is nil), GLOBALSET, lookup.Write/Assign. addMethod (an existing method object is overwritten in place and the method table left alone, so bound methods captured earlier run the new body), addField/syncFields (GLOBALSTRUCT merges into the existing type object).",
    technique=TECH),
  'C19': dict(level='proof', design='5.19',
-   text="Round-trip contracts on every numeric/bool/object Value constructor/accessor pair, discharged for all argument values; newFunc. NewFunc adapters, VM.Func/Call not yet under contract.",
+   text="Round-trip contracts on every numeric/bool/object Value constructor/accessor pair, discharged for all argument values; newFunc; the NewFunc adapters 0->1, N->0, N->1, N->M (the native receives exactly the top argc values in order, they are removed, results are appended, nothing below is touched, no slicing beyond the stack); VM.Func/Call never let a panic escape. Natives are assumed not to touch vm.stack themselves. The variadic adapter and the exact result count of Func are not under contract.",
    technique=TECH),
  'C20': dict(level='proof', design='5.20',
-   text="Position lemma per optimizer rule (the fused instruction carries the position of a component that can fault, or one that the rule's own guard / Go's grammar puts on the same line) and the backtrace push/pop discipline of the activation closure. Position stamping in compile() and btErr not yet under contract.",
+   text="Position lemma per optimizer rule (the fused instruction carries the position of a component that can fault, or one that the rule's own guard / Go's grammar puts on the same line) and the backtrace push/pop discipline of the activation closure. btErr emits exactly one line per non-zero backtrace entry (ghost count) after the faulting instruction's line, lambda restores the enclosing function name. The position-stamping loop at the end of compile() is not under contract.",
    technique=TECH),
 }
 na_reasons = {
